@@ -18,7 +18,8 @@ theorem step_mono {cfg : Cfg} {s s' : State} (a : Action) (h : step cfg s a = so
   cases a with
   | connect =>
     simp only [step, Option.some.injEq] at h; subst h; exact connsMono_append _ _
-  | send c r => exact updConn_mono (good_cSend r) h
+  | send c r => exact updConn_mono (good_cSend false r) h
+  | sendNR c r => exact updConn_mono (good_cSend true r) h
   | accept c =>
     simp only [step] at h
     split at h
@@ -67,6 +68,7 @@ theorem step_mono {cfg : Cfg} {s s' : State} (a : Action) (h : step cfg s a = so
     · exact updConn_mono (good_cStart i) h
   | fin c i => exact updConn_mono (good_cFin i) h
   | write c i => exact updConn_mono (good_cWrite i) h
+  | skip c i => exact updConn_mono (good_cSkip _ i) h
   | dec c i => exact updConn_mono (good_cDec i) h
   | drainClose c => exact updConn_mono good_cDrainClose h
   | shutdownCall =>
@@ -218,7 +220,7 @@ theorem nhf_cSetSt (i : Nat) (frm : HSt) (to : Conn → HSt) (hto : ∀ k, to k 
   · exact hn q hq
   · subst hq; exact hto k
 
-theorem nhf_cSend (r : Rid) : NoHandF (cSend r) := nhf_of_reqs_eq (by
+theorem nhf_cSend (nr : Bool) (r : Rid) : NoHandF (cSend nr r) := nhf_of_reqs_eq (by
   intro k k' h; unfold cSend at h; split at h <;> try contradiction
   simp only [Option.some.injEq] at h; subst h; rfl)
 theorem nhf_cAccept : NoHandF cAccept := nhf_of_reqs_eq (by
@@ -267,8 +269,13 @@ theorem nhf_cDispatch (p : Bool) : NoHandF (cDispatch p) := by
 theorem nhf_cStart (i : Nat) : NoHandF (cStart i) := nhf_cSetSt i .queued (fun _ => .running) (by simp)
 theorem nhf_cStartP (i : Nat) : NoHandF (cStartP i) := nhf_cSetSt i .handed (fun _ => .running) (by simp)
 theorem nhf_cFin (i : Nat) : NoHandF (cFin i) := nhf_cSetSt i .running (fun _ => .finished) (by simp)
+theorem nhf_of_imp {f g : Conn → Option Conn} (h : ∀ k k', f k = some k' → g k = some k')
+    (hg : NoHandF g) : NoHandF f := fun k k' hf => hg k k' (h k k' hf)
 theorem nhf_cWrite (i : Nat) : NoHandF (cWrite i) :=
-  nhf_cSetSt i .finished (fun k => .wrote (!k.srvClosed)) (by simp)
+  nhf_of_imp (cWrite_imp i) (nhf_cSetSt i .finished (fun k => .wrote (!k.srvClosed)) (by simp))
+theorem nhf_cSkip (d : Bool) (i : Nat) : NoHandF (cSkip d i) :=
+  nhf_of_imp (cSkip_imp d i) (nhf_cSetSt i .finished (fun _ => if d then .wrote true else .leaked)
+    (by intro _; cases d <;> simp))
 theorem nhf_cDec (i : Nat) : NoHandF (cDec i) := by
   intro k k' h hn q hq
   unfold cDec at h
@@ -316,7 +323,8 @@ theorem nohand_step {cfg : Cfg} (hpool : cfg.pool = none) {s s' : State} (a : Ac
       cases hcl : c - s.conns.length with
       | zero => rw [hcl] at hx; simp at hx; subst hx; intro q hq; simp [Conn.new] at hq
       | succ n => rw [hcl] at hx; simp at hx
-  | send c r => exact nohand_updConn (nhf_cSend r) hn h
+  | send c r => exact nohand_updConn (nhf_cSend false r) hn h
+  | sendNR c r => exact nohand_updConn (nhf_cSend true r) hn h
   | accept c =>
     simp only [step] at h
     split at h
@@ -342,6 +350,7 @@ theorem nohand_step {cfg : Cfg} (hpool : cfg.pool = none) {s s' : State} (a : Ac
     · exact nohand_updConn (nhf_cStart i) hn h
   | fin c i => exact nohand_updConn (nhf_cFin i) hn h
   | write c i => exact nohand_updConn (nhf_cWrite i) hn h
+  | skip c i => exact nohand_updConn (nhf_cSkip _ i) hn h
   | dec c i => exact nohand_updConn (nhf_cDec i) hn h
   | drainClose c => exact nohand_updConn nhf_cDrainClose hn h
   | shutdownCall =>
